@@ -4,11 +4,12 @@ C07 / C01: one finding per (cpu, kind[, signature]) listing the mnemonics, with 
 C06: one finding per cpu listing the template keys.  Existing open findings of that property with the id prefix
 '<PROP>-auto-' are replaced; fixed entries and hand-written findings are kept."""
 import sys, json, re, ast
-prop, path = sys.argv[1], sys.argv[2]
+prop, paths = sys.argv[1], sys.argv[2:]
 kf = json.load(open("/verif/known_findings.json"))
 kf["findings"] = [f for f in kf["findings"] if not (f["property"] == prop and f["id"].startswith(prop + "-auto-"))]
 groups = {}
-for line in open(path, errors="replace"):
+import itertools
+for line in itertools.chain.from_iterable(open(p_, errors="replace") for p_ in paths):
     f = line.rstrip("\n").split("\t")
     if f[0] != "SURVEY":
         continue
@@ -25,6 +26,8 @@ for line in open(path, errors="replace"):
             except Exception:
                 m = re.search(r"'pattern': (\d+)", payload)
                 pl = {"pattern": int(m.group(1)), "mode": "scan"} if m else {"raw": payload[:200]}
+        if isinstance(pl, dict) and pl.get("mode") == "roundtrip" and not kind.endswith("_rt"):
+            kind += "_rt"
         g = groups.setdefault((cpu, kind, sig), {"mn": set(), "ex": None, "n": 0})
         g["mn"].add(mn)
         g["n"] += int(cnt)
@@ -37,7 +40,10 @@ for line in open(path, errors="replace"):
         g = groups.setdefault((cpu,), {"keys": {}, "kinds": set()})
         g["keys"][key] = (kind, vals[:120])
         g["kinds"].add(kind)
-what = {"c07_mismatch": "decode -> assemble -> decode gives a different rendering",
+what = {"c01_refix_rt": "re-assembling the disassembly of the bytes emitted for a generated instruction text gives different bytes",
+        "c01_walk_rt": "walking the disassembler over the bytes emitted for a generated instruction text does not consume exactly those bytes",
+        "asm_crash_rt": "the assembler crashes on a generated instruction text", "dis_crash_rt": "the disassembler crashes on emitted bytes",
+        "c07_mismatch": "decode -> assemble -> decode gives a different rendering",
         "c01_refix": "re-assembling the disassembly of the emitted bytes gives different bytes",
         "c01_walk": "walking the disassembler over the emitted bytes does not consume exactly those bytes",
         "asm_crash": "the assembler crashes", "asm_hang": "the assembler hangs", "dis_crash": "the disassembler crashes",
@@ -50,6 +56,8 @@ for key in sorted(groups):
     if prop in ("C07", "C01"):
         cpu, kind, sig = key
         mns = sorted(g["mn"])
+        if kind.endswith("_rt") and len(mns) >= 12:
+            mns = ["*"]          # open-ended generated texts: the whole CPU is listed once it fails for a dozen mnemonics
         ex = g["ex"]
         desc = ex.get("first") and "%s -> %s" % (ex.get("first"), ex.get("second")) or ex.get("text") or ""
         if ex.get("decoded") and isinstance(ex.get("decoded"), str):
